@@ -27,6 +27,7 @@ type C15Case struct {
 	BadAt    int     `json:"bad_token_offset"`
 	// MissingAt-1 is the offset at which scanning must fail (0 = unknown to the generator)
 	MissingAt int `json:"scan_stops_at_plus1,omitempty"`
+	AltAt     int `json:"alt_token_start_plus1,omitempty"`
 }
 
 func msgOffset(msg string) int {
@@ -159,7 +160,7 @@ func judgeC15(c *Ctx, cs C15Case) {
 				problem = fmt.Sprintf("the unknown id starts at offset %d of the argument, the message cites %d", cs.BadAt, n)
 			}
 		case "expected_id":
-			if n != cs.MissingAt-1 && n != cs.BadAt {
+			if n != cs.MissingAt-1 && n != cs.BadAt && (cs.AltAt == 0 || n != cs.AltAt-1) {
 				problem = fmt.Sprintf("the id is missing at offset %d (offending token starts at %d), the message cites %d", cs.MissingAt-1, cs.BadAt, n)
 			}
 		}
@@ -197,7 +198,10 @@ func runC15(c *Ctx, phase string) {
 		// hostile unknown ids: suffixes / prefixes in the wrong letter case (the suffix and prefix rules are case-sensitive), so the
 		// scanner's normalisation code runs on them before they are reported
 		"FOO-2.0-OR-LATER", "Foo-1-Only", "BAR-Or-Later", "MIT-ONLY", "Apache-2.0-OR-LATER", "apache-2.0-Or-Later", "licenseref-x", "LICENSEREF-x",
-		"documentref-a", "Gpl-9.9", "GPL-2.0-ONLY-only-x", "x-only", "y-or-later", "-or-later", "-only", "Z-only-or-later"}
+		"documentref-a", "Gpl-9.9", "GPL-2.0-ONLY-only-x", "x-only", "y-or-later", "-or-later", "-only", "Z-only-or-later",
+		// a document reference whose license reference lacks its id; unknown ids with odd endings or glued to the next character
+		"DocumentRef-x:LicenseRef-", "DocumentRef-My.Doc-1:LicenseRef-!y", "DocumentRef-x:LicenseRef- z",
+		"foo.", "foo-", "a..b", "foo+", "foo(", "foo:", "Foo-1.0+", strings.Repeat("LongUnknownId", 6), strings.Repeat("x", 300)}
 	for i := 0; i < n; i++ {
 		if !c.Mine(i) {
 			continue
@@ -247,6 +251,9 @@ func runC15(c *Ctx, phase string) {
 		switch {
 		case strings.HasPrefix(bad, "LicenseRef-"):
 			cs.MissingAt += len("LicenseRef-")
+		case strings.HasPrefix(bad, "DocumentRef-") && len(bad) > 12 && isIDByte(bad[12]) && strings.Contains(bad, ":LicenseRef-"):
+			cs.MissingAt += strings.Index(bad, ":LicenseRef-") + len(":LicenseRef-")
+			cs.AltAt = cs.BadAt + strings.Index(bad, ":LicenseRef-") + 1 + 1 // start of the LicenseRef- token (+1: 0 means unset)
 		case strings.HasPrefix(bad, "DocumentRef-"):
 			cs.MissingAt += len("DocumentRef-")
 		}
